@@ -54,7 +54,8 @@ Definition BATCH : nat := 20.            (* ARRAY_SIZE(m), N in uv__udp_sendmsg,
 (* one datagram: its sequence number (submission order on the handle) and size *)
 (* d_dst: the address the application gave for it: 0 = NULL (the connected peer),
    1 / 2 = one of two fixed destinations *)
-Record dgram := mkD { d_seq : nat; d_len : N; d_dst : nat }.
+(* d_nb: the number of buffers (msg_iovlen) it is made of *)
+Record dgram := mkD { d_seq : nat; d_len : N; d_dst : nat; d_nb : N }.
 
 (* uv_udp_send_t *)
 Record req := mkReq { q_id : nat; q_d : dgram; q_status : Z }.
@@ -68,9 +69,9 @@ Record rmsg := mkM { m_id : nat; m_len : Z; m_trunc : bool }.
 Inductive rans := RMsgs (l : list rmsg) | RErr (e : Z).
 
 Inductive op :=
-| OSend (len : N) (addr : nat)       (* uv_udp_send, one datagram of len bytes; addr 0 = NULL *)
-| OTry (len : N) (addr : nat)        (* uv_udp_try_send *)
-| OTry2 (lens : list N) (flags : Z) (addr : nat)  (* uv_udp_try_send2 with a batch; addr 3 = 1,2 alternating *)
+| OSend (len : N) (addr : nat) (nb : N)   (* uv_udp_send, one datagram of len bytes in nb buffers; addr 0 = NULL *)
+| OTry (len : N) (addr : nat) (nb : N)    (* uv_udp_try_send *)
+| OTry2 (lens : list (N * N)) (flags : Z) (addr : nat)  (* uv_udp_try_send2, batch of (bytes, buffers); addr 3 = 1,2 alternating *)
 | OConnect (dst : nat)               (* uv_udp_connect(addr of destination dst) *)
 | ODisconnect                        (* uv_udp_connect(NULL) *)
 | OGet                               (* the two getters and uv_is_active *)
@@ -87,7 +88,7 @@ Inductive event :=
 | ETry2 (seq0 : nat) (count : nat) (ret : Z)
 | ESys1 (seq : nat) (a : sans)                 (* sendmsg(datagram) = a *)
 | ESysN (seqs : list nat) (a : sans)           (* sendmmsg(datagrams) = a *)
-| EName (l : list (nat * nat))                 (* msg_name of the datagrams (seq, address) passed to uv__udp_sendmsgv / uv__udp_sendmsg1 *)
+| EName (l : list (nat * nat * N))             (* (seq, msg_name, msg_iovlen) of the datagrams passed to uv__udp_sendmsgv / uv__udp_sendmsg1 *)
 | EConnect (dst : nat) (ret : Z)
 | EDisconnect (ret : Z)
 | ECb (id : nat) (status : Z)                  (* send_cb *)
@@ -194,10 +195,29 @@ Fixpoint send_retry (mk : sans -> event) (o : list sans) : sans * list event * l
 Definition map_errno (e : Z) : Z :=
   if (e =? EAGAIN) || (e =? ENOBUFS) then UV_EAGAIN else - e.
 
-(* kernel contract: sendmmsg(vlen) answers at most vlen *)
-Definition clamp (n : nat) (a : sans) : sans :=
+(* Kernel contract (part of the OS oracle, not libuv code): a message with more than
+   IOV_MAX (UIO_MAXIOV = 1024) buffers is refused with EMSGSIZE; sendmmsg(vlen) takes
+   messages in order, so it answers at most the number of leading messages it can accept
+   (and at most vlen), or EMSGSIZE when the first one is too long. *)
+Definition IOV_MAX : N := 1024.
+Definition EMSGSIZE : positive := 90.
+Fixpoint okp (m : list dgram) : nat :=
+  match m with
+  | [] => O
+  | d :: r => if (d_nb d <=? IOV_MAX)%N then S (okp r) else O
+  end.
+Definition clamp (m : list dgram) (a : sans) : sans :=
   match a with
-  | SRet r => SRet (N.min r (N.of_nat n))
+  | SRet r =>
+      match m, okp m with
+      | _ :: _, O => SErr EMSGSIZE
+      | _, k => SRet (N.min r (N.of_nat k))
+      end
+  | SErr e => SErr e
+  end.
+Definition clamp1 (d : dgram) (a : sans) : sans :=
+  match a with
+  | SRet r => if (d_nb d <=? IOV_MAX)%N then SRet r else SErr EMSGSIZE
   | SErr e => SErr e
   end.
 
@@ -226,8 +246,8 @@ Fixpoint chunk_loop (fx : bool) (fuel : nat) (ds : list dgram) (i : nat) (nsent 
         let m := firstn BATCH (skipn i ds) in
         let n := length m in
         let i1 := if fx then i else (i + n)%nat in
-        let '(a0, ev, o1) := send_retry (fun a => ESysN (map d_seq m) (clamp n a)) o in
-        match clamp n a0 with
+        let '(a0, ev, o1) := send_retry (fun a => ESysN (map d_seq m) (clamp m a)) o in
+        match clamp m a0 with
         | SErr e => (vexit nsent (SErr e), ev, o1)
         | SRet r =>
             if (r <? 1)%N then (vexit nsent (SRet r), ev, o1)
@@ -240,8 +260,8 @@ Fixpoint chunk_loop (fx : bool) (fuel : nat) (ds : list dgram) (i : nat) (nsent 
 
 (* uv__udp_sendmsg1: 1 when sent, else the mapped errno *)
 Definition sendmsg1 (d : dgram) (o : list sans) : Z * list event * list sans :=
-  let '(a, ev, o') := send_retry (ESys1 (d_seq d)) o in
-  (match a with SRet _ => 1 | SErr e => map_errno (Z.pos e) end, ev, o').
+  let '(a, ev, o') := send_retry (fun a => ESys1 (d_seq d) (clamp1 d a)) o in
+  (match clamp1 d a with SRet _ => 1 | SErr e => map_errno (Z.pos e) end, ev, o').
 
 (* uv__udp_sendmsgv *)
 Definition sendmsgv (fx : bool) (ds : list dgram) (o : list sans) : Z * list event * list sans :=
@@ -275,7 +295,7 @@ Fixpoint sendmsg_loop (fx : bool) (fuel : nat) (s : st) : st * list event :=
   | S f =>
       let batch := firstn BATCH (wq s) in
       let '(n, ev0, o') := sendmsgv fx (map q_d batch) (os s) in
-      let ev := EName (map (fun r => (d_seq (q_d r), d_dst (q_d r))) batch) :: ev0 in
+      let ev := EName (map (fun r => (d_seq (q_d r), d_dst (q_d r), d_nb (q_d r))) batch) :: ev0 in
       let s1 := set_os o' s in
       if 0 <? n then
         let s2 := complete (Z.to_nat n) s1 in
@@ -310,7 +330,7 @@ Definition bump_id (s : st) : st :=
 (* uv_udp_send; every call uses up one request id and one sequence number.  The event of
    the call is put in front of the system calls it makes (its result is known by then:
    past the entry check uv__udp_send returns 0). *)
-Definition udp_send (fx : bool) (s : st) (len : N) (addr : nat) : st * list event :=
+Definition udp_send (fx : bool) (s : st) (len : N) (addr : nat) (nb : N) : st * list event :=
   let id := next_id s in
   let seq := next_seq s in
   let s0 := bump_id (bump_seq 1 s) in
@@ -319,7 +339,7 @@ Definition udp_send (fx : bool) (s : st) (len : N) (addr : nat) : st * list even
   else
     let empty_queue := sq_count s0 =? 0 in
     let s1 := set_active true
-                (set_queues (wq s0 ++ [mkReq id (mkD seq len addr) 0]) (cq s0)
+                (set_queues (wq s0 ++ [mkReq id (mkD seq len addr nb) 0]) (cq s0)
                             (sq_size s0 + Z.of_N len) (sq_count s0 + 1) s0) in
     if empty_queue && negb (processing s1) then
       let '(s2, ev) := udp_sendmsg fx s1 in
@@ -328,24 +348,25 @@ Definition udp_send (fx : bool) (s : st) (len : N) (addr : nat) : st * list even
     else (set_pout true s1, [ESend id seq (Z.of_N len) 0]).
 
 (* uv_udp_try_send *)
-Definition udp_try_send (s : st) (len : N) (addr : nat) : st * list event :=
+Definition udp_try_send (s : st) (len : N) (addr : nat) (nb : N) : st * list event :=
   let seq := next_seq s in
   let s0 := bump_seq 1 s in
   let c := check_before_send s addr in
   if c <? 0 then (s0, [ETry seq (Z.of_N len) c])
   else if negb (sq_count s0 =? 0) then (s0, [ETry seq (Z.of_N len) UV_EAGAIN])
   else
-    let '(r, ev, o') := sendmsg1 (mkD seq len addr) (os s0) in
-    (set_os o' s0, EName [(seq, addr)] :: ev ++ [ETry seq (Z.of_N len) (if 0 <? r then Z.of_N len else r)]).
+    let '(r, ev, o') := sendmsg1 (mkD seq len addr nb) (os s0) in
+    (set_os o' s0, EName [(seq, addr, nb)] :: ev ++ [ETry seq (Z.of_N len) (if 0 <? r then Z.of_N len else r)]).
 
-Fixpoint mk_batch (seq : nat) (addr : nat) (lens : list N) : list dgram :=
+Fixpoint mk_batch (seq : nat) (addr : nat) (lens : list (N * N)) : list dgram :=
   match lens with
   | [] => []
-  | l :: ls => mkD seq l (if (addr =? 3)%nat then S (seq mod 2) else addr) :: mk_batch (S seq) addr ls
+  | l :: ls => mkD seq (fst l) (if (addr =? 3)%nat then S (seq mod 2) else addr) (snd l)
+               :: mk_batch (S seq) addr ls
   end.
 
 (* uv_udp_try_send2 *)
-Definition udp_try_send2 (fx : bool) (s : st) (lens : list N) (flags : Z) (addr : nat) : st * list event :=
+Definition udp_try_send2 (fx : bool) (s : st) (lens : list (N * N)) (flags : Z) (addr : nat) : st * list event :=
   let seq0 := next_seq s in
   let count := length lens in
   let s0 := bump_seq count s in
@@ -354,7 +375,7 @@ Definition udp_try_send2 (fx : bool) (s : st) (lens : list N) (flags : Z) (addr 
   else if 0 <? sq_count s0 then (s0, [ETry2 seq0 count UV_EAGAIN])
   else
     let '(r, ev, o') := sendmsgv fx (mk_batch seq0 addr lens) (os s0) in
-    (set_os o' s0, EName (map (fun d => (d_seq d, d_dst d)) (mk_batch seq0 addr lens)) :: ev ++ [ETry2 seq0 count r]).
+    (set_os o' s0, EName (map (fun d => (d_seq d, d_dst d, d_nb d)) (mk_batch seq0 addr lens)) :: ev ++ [ETry2 seq0 count r]).
 
 (* uv__udp_recv_start *)
 Definition recv_start (s : st) : st * list event :=
@@ -393,8 +414,8 @@ Definition api (fx : bool) (s : st) (o : op) : st * list event :=
   | _ =>
     if closing s then (s, []) else
     match o with
-    | OSend len addr => udp_send fx s len addr
-    | OTry len addr => udp_try_send s len addr
+    | OSend len addr nb => udp_send fx s len addr nb
+    | OTry len addr nb => udp_try_send s len addr nb
     | OTry2 lens flags addr => udp_try_send2 fx s lens flags addr
     | OConnect dst => udp_connect s dst
     | ODisconnect => udp_disconnect s
@@ -632,12 +653,12 @@ Definition handed (tr : list event) : list nat := flat_map handed_by tr.
 (* Who receives what, according to a trace: a datagram handed over with msg_name a goes to
    destination a, with msg_name NULL (0) to the peer the handle is connected to at that
    moment.  [names] is the latest EName. *)
-Fixpoint name_of (seq : nat) (names : list (nat * nat)) : nat :=
+Fixpoint name_of (seq : nat) (names : list (nat * nat * N)) : nat :=
   match names with
   | [] => O
-  | (sq, a) :: r => if (sq =? seq)%nat then a else name_of seq r
+  | (sq, a, _) :: r => if (sq =? seq)%nat then a else name_of seq r
   end.
-Fixpoint delivered (pr : nat) (names : list (nat * nat)) (tr : list event) : list (nat * nat) :=
+Fixpoint delivered (pr : nat) (names : list (nat * nat * N)) (tr : list event) : list (nat * nat) :=
   match tr with
   | [] => []
   | e :: t =>
